@@ -534,6 +534,26 @@ theorem StepOKC.pass {env : Env} {fuel : Nat} {op : HOp} {x : St × RSt} (hop : 
   | hotReload => exact h
   | enhance => exact h
 
+/-- **Histories whose steps satisfy `P`**, for every `P` whose steps keep `SInvC` and whose reloader steps
+satisfy `PassOK` when they run a pass: the invariant holds at the end, and after EVERY reloader step of
+the history the channel is drained and everything registered and cached is settled. -/
+theorem histP_settled {P : HOp → St × RSt → Prop} {env : Env} (hS : env.Steady) {fuel : Nat}
+    (hI : ∀ x op, SInvC env fuel x → P op x → SInvC env fuel (hstep fuel (env, op) x))
+    (hpass : ∀ x op, op.isReloader = true → P op x →
+      op.runsPass x.2 = true → (prePass op x).2.toReload ≠ [] → PassOK env fuel (prePass op x))
+    {h : List (Env × HOp)} {x : St × RSt} (hh : HistP P env fuel h x) (hx : SInvC env fuel x) :
+    SInvC env fuel (runH fuel h x) ∧
+    ∀ h1 op h2, h = h1 ++ (env, op) :: h2 → op.isReloader = true →
+      Settled env fuel (runH fuel (h1 ++ [(env, op)]) x).1 (runH fuel (h1 ++ [(env, op)]) x).2.graph ∧
+      (runH fuel (h1 ++ [(env, op)]) x).1.out = [] ∧ SInvC env fuel (runH fuel (h1 ++ [(env, op)]) x) ∧
+      SInvC env fuel (runH fuel h1 x) := by
+  obtain ⟨i1, i2⟩ := HistP.at (I := SInvC env fuel) hI hh hx
+  refine ⟨i1, fun h1 op h2 e hop => ?_⟩
+  obtain ⟨j1, j2⟩ := i2 h1 op h2 e
+  rw [runH_append]
+  obtain ⟨a, b, c⟩ := j1.step_reloader hS op hop (hpass _ op hop j2)
+  exact ⟨a, b, c, j1⟩
+
 /-- **Histories with `clear`**: the invariant holds at the end, and after EVERY reloader step of the
 history the channel is drained and everything registered and cached is settled. -/
 theorem histC_settled {env : Env} (hS : env.Steady) {fuel : Nat} {h : List (Env × HOp)} {x : St × RSt}
@@ -542,13 +562,249 @@ theorem histC_settled {env : Env} (hS : env.Steady) {fuel : Nat} {h : List (Env 
     ∀ h1 op h2, h = h1 ++ (env, op) :: h2 → op.isReloader = true →
       Settled env fuel (runH fuel (h1 ++ [(env, op)]) x).1 (runH fuel (h1 ++ [(env, op)]) x).2.graph ∧
       (runH fuel (h1 ++ [(env, op)]) x).1.out = [] ∧ SInvC env fuel (runH fuel (h1 ++ [(env, op)]) x) ∧
-      SInvC env fuel (runH fuel h1 x) := by
-  obtain ⟨i1, i2⟩ := HistP.at (I := SInvC env fuel) (fun x op hx hok => hx.step hS op hok) hh hx
-  refine ⟨i1, fun h1 op h2 e hop => ?_⟩
-  obtain ⟨j1, j2⟩ := i2 h1 op h2 e
-  rw [runH_append]
-  obtain ⟨a, b, c⟩ := j1.step_reloader hS op hop (j2.pass hop)
-  exact ⟨a, b, c, j1⟩
+      SInvC env fuel (runH fuel h1 x) :=
+  histP_settled hS (fun _ op hx hok => hx.step hS op hok) (fun _ _ hop hok => hok.pass hop) hh hx
+
+/-! ## `load_owned` from the API
+
+`load_owned(key)` evaluates the loader of `key` under its own frame and, on success, registers `key`
+with what the frame recorded — like a load — but caches nothing for `key`: the value is handed to the
+caller. The registration is for a key that is (in general) NOT cached: vacuously `MsgGoodIf`; the node it
+creates is typed and skipped by `reload` (`reload_untyped` finds no entry). The assets the owned load
+cached ON THE WAY (nested `load`s) are registered by good messages, exactly as for a load.
+When `key` IS cached (`load a; load_owned a`) the registration must agree with the entry: `OwnedAgrees`.
+Nested `load_owned` (inside a loader) stays excluded: `hitRun` rejects it, so an asset whose loader takes
+that path is never `Settled` — by definition, not by a gap of the proof. -/
+
+theorem St.record_nil (s : St) (on : Bool) (d : Dep) (h : s.recs = []) : s.record on d = s := by
+  unfold St.record
+  split
+  · rw [h]
+  · rfl
+
+theorem eval_ret_fst (env : Env) (f : Nat) (s : St) (v : Val) : (eval env f s (.ret v)).1 = s := by
+  cases f <;> rfl
+
+theorem eval_fail_fst (env : Env) (f : Nat) (s : St) (e : LErr) : (eval env f s (.fail e)).1 = s := by
+  cases f <;> rfl
+
+/-- the evaluation of the loader body that a top-level `load_owned(key)` performs: the loader of `key`
+from the cache `s` under a fresh record, with the fuel left after the call itself -/
+def ownedBody (env : Env) (fuel : Nat) (s : St) (key : Key) : St × Outcome :=
+  eval env (fuel - 1) s.fresh ((env.types key.ty).prog key.id)
+
+/-- **What a top-level `load_owned` does** (hot type, cache with reloader): the cache afterwards is the
+cache the body ended in — nothing is inserted for `key` —, and the channel is the body's followed, when
+the body returned a value, by the registration of `key` with what the body recorded. -/
+theorem step_loadOwned_facts (env : Env) (f : Nat) (s : St) (key : Key)
+    (hb : recordsAsset (env.types key.ty).hot env.hasReloader = true) :
+    (∀ k, (step env (f + 1) s (.loadOwned key)).1.lookup k = (ownedBody env (f + 1) s key).1.lookup k) ∧
+    (step env (f + 1) s (.loadOwned key)).1.out = (ownedBody env (f + 1) s key).1.out ++
+      (match (ownedBody env (f + 1) s key).2 with
+       | .ok _ => [.addAsset key (ownedBody env (f + 1) s key).1.top]
+       | _ => []) := by
+  have hfr : (St.enter { s with recs := [] }) = s.fresh := rfl
+  have hrec : St.record { s with recs := [] } (recordsAsset (env.types key.ty).hot env.hasReloader) (.asset key) =
+      { s with recs := [] } := St.record_nil _ _ _ rfl
+  show (∀ k, (evalTop env (f + 1) s (.loadOwned key Prog.ret')).1.lookup k = _) ∧
+    (evalTop env (f + 1) s (.loadOwned key Prog.ret')).1.out = _
+  unfold evalTop ownedBody
+  simp only [eval, hrec, Nat.add_sub_cancel]
+  rw [loadAndRecord_hot env _ key _ hb, hfr]
+  generalize eval env f s.fresh ((env.types key.ty).prog key.id) = y
+  obtain ⟨sb, o⟩ := y
+  cases o with
+  | ok v =>
+    simp only []
+    have e : Prog.ret' (.ok v) = .ret v := rfl
+    rw [e, eval_ret_fst]
+    exact ⟨fun _ => rfl, rfl⟩
+  | err e =>
+    simp only [cont]
+    have e' : Prog.ret' (.error (id (LErr.wrapped key.id e))) = .fail (LErr.wrapped key.id e) := rfl
+    rw [e', eval_fail_fst]
+    refine ⟨fun k => ?_, ?_⟩
+    · exact St.lookup_congr (leaveErr_map _ sb) k
+    · show (St.leaveErr _ sb).out = sb.out ++ []
+      rw [leaveErr_out, List.append_nil]
+  | panicked => exact ⟨fun _ => rfl, (List.append_nil _).symm⟩
+  | diverged => exact ⟨fun _ => rfl, (List.append_nil _).symm⟩
+
+/-- the evaluation a top-level `load_owned(key)` performs is a clean loading run: the type of `key` is
+hot-reloaded, and the body of its loader runs clean (`cleanRun`, relative to the cache the call ends in:
+plain constructors and recorded look-ups on the path it takes, nested `load`s included; no absorbed
+failure; no `get_cached` probe of a key that is cached before the call returns) -/
+structure CleanLoadOwned (env : Env) (fuel : Nat) (s : St) (key : Key) : Prop where
+  hot : recordsAsset (env.types key.ty).hot env.hasReloader = true
+  body : cleanRun env (step env fuel s (.loadOwned key)).1 (fuel - 1) s.fresh ((env.types key.ty).prog key.id) = true
+
+/-- a `load_owned` of a key that is cached (with a dynamic cell) returns the cached value -/
+def OwnedAgrees (env : Env) (fuel : Nat) (s : St) (key : Key) : Prop :=
+  ∀ c v, s.lookup key = some c → c.dyn = true → (ownedBody env fuel s key).2 = .ok v → v = c.val
+
+/-- the named hypotheses on one `load_owned` of a history -/
+structure LoadOwnedOK (env : Env) (fuel : Nat) (s : St) (r : RSt) (key : Key) : Prop where
+  clean : CleanLoadOwned env fuel s key
+  agrees : OwnedAgrees env fuel s key
+  noFill : NoProbedKeyFilled s (step env fuel s (.loadOwned key)).1 r.graph
+  noFillLive : NoLivePendingKeyFilled s (step env fuel s (.loadOwned key)).1
+
+/-- **A top-level `load_owned` keeps `PendingC`.** -/
+theorem loadOwned_pendingC {env : Env} (hS : env.Steady) {fuel : Nat} {s : St} {r : RSt} (key : Key)
+    (hp : PendingC env fuel s r.graph) (hok : LoadOwnedOK env fuel s r key) :
+    PendingC env fuel (step env fuel s (.loadOwned key)).1 r.graph := by
+  obtain ⟨⟨hb, hcl⟩, hag, hfill, hfillM⟩ := hok
+  cases fuel with
+  | zero =>
+    exact hp.extend hS (new := []) (fun k c h => h) (List.append_nil _).symm (LastGood.nil _ _ _)
+      (fun k c h _ => Or.inl h) hfill hfillM
+  | succ f =>
+    obtain ⟨hlk, hout⟩ := step_loadOwned_facts env f s key hb
+    unfold OwnedAgrees at hag
+    unfold ownedBody at hlk hout hag
+    simp only [Nat.add_sub_cancel] at hlk hout hag hcl
+    generalize ht : (step env (f + 1) s (.loadOwned key)).1 = t at hlk hout hcl hfill hfillM ⊢
+    have hleB : (eval env f s.fresh ((env.types key.ty).prog key.id)).1.Le t := fun k c h => (hlk k).trans h
+    obtain ⟨newb, b1, b2, b3⟩ := clean_out hS (f + 1) (fin0 := t) (fin := t) (fun _ h => h) f _ s.fresh
+      (Nat.le_succ f) hcl hleB
+    have hb3 : ∀ k c, t.lookup k = some c → s.lookup k = some c ∨ ∃ D, Msg.addAsset k D ∈ newb := by
+      intro k c h
+      rw [hlk k] at h
+      exact b3 k c h
+    have hgoodb : ∀ k D, lastReg k newb = some D → MsgGood env (f + 1) t k D := by
+      intro k D hk
+      obtain ⟨k', D', e, hg⟩ := b2 _ (lastReg_mem hk)
+      obtain ⟨e1, e2⟩ := Msg.addAsset.inj e
+      subst e1; subst e2
+      exact hg
+    have hle : s.Le t :=
+      ((St.Le.of_map_eq (s := s) (t := s.fresh) rfl).trans (eval_mono env f s.fresh _)).trans hleB
+    cases hbody : eval env f s.fresh ((env.types key.ty).prog key.id) with
+    | mk sb o =>
+      rw [hbody] at hout b1 hag hleB
+      have b1' : sb.out = s.out ++ newb := b1
+      cases o with
+      | ok v =>
+        simp only [] at hout
+        refine hp.extend hS (new := newb ++ [.addAsset key sb.top]) hle
+          (by rw [hout, b1', List.append_assoc]) ?_ ?_ hfill hfillM
+        · intro k D hk
+          rw [lastReg_append] at hk
+          by_cases hkk : key = k
+          · subst hkk
+            have hl : lastReg key [Msg.addAsset key sb.top] = some sb.top := by simp only [lastReg, if_true]
+            rw [hl] at hk
+            simp only [Option.some.injEq] at hk
+            subst hk
+            intro c hc hd
+            obtain ⟨p1, p2, p3⟩ := clean_body_replay hS (fin0 := t) (fin := t) (fun _ h => h) (Nat.le_succ f)
+              (s0 := s.fresh) (rs := []) rfl hcl hbody hleB
+            have hv : v = c.val := by
+              rcases hb3 key c hc with h | ⟨D, h⟩
+              · exact hag c v h hd rfl
+              · obtain ⟨k', D', e, c', hc', _, m2, _⟩ := b2 _ h
+                obtain ⟨ek, _⟩ := Msg.addAsset.inj e
+                subst ek
+                rw [hc] at hc'
+                have ec : c = c' := by simpa using hc'
+                subst ec
+                rw [p2] at m2
+                exact Outcome.ok.inj m2
+            exact ⟨c, hc, p1, by rw [p2, hv], p3⟩
+          · have hl : lastReg k [Msg.addAsset key sb.top] = none := by simp only [lastReg, hkk, if_false]
+            rw [hl] at hk
+            intro _ _ _
+            exact hgoodb k D hk
+        · intro k c hc _
+          rcases hb3 k c hc with h | ⟨D, h⟩
+          · exact Or.inl h
+          · exact Or.inr ⟨D, List.mem_append_left _ h⟩
+      | err e =>
+        simp only [] at hout
+        refine hp.extend hS (new := newb) hle (by rw [hout, b1', List.append_nil]) ?_ ?_ hfill hfillM
+        · intro k D hk _ _ _
+          exact hgoodb k D hk
+        · intro k c hc _; exact hb3 k c hc
+      | panicked =>
+        simp only [] at hout
+        refine hp.extend hS (new := newb) hle (by rw [hout, b1', List.append_nil]) ?_ ?_ hfill hfillM
+        · intro k D hk _ _ _
+          exact hgoodb k D hk
+        · intro k c hc _; exact hb3 k c hc
+      | diverged =>
+        simp only [] at hout
+        refine hp.extend hS (new := newb) hle (by rw [hout, b1', List.append_nil]) ?_ ?_ hfill hfillM
+        · intro k D hk _ _ _
+          exact hgoodb k D hk
+        · intro k c hc _; exact hb3 k c hc
+
+/-- **The per-step hypotheses of a history with `clear` and `load_owned`**: `StepOKC`, and `LoadOwnedOK`
+for a `load_owned` from the API -/
+def StepOKO (env : Env) (fuel : Nat) : HOp → St × RSt → Prop
+  | .api (.loadOwned key), x => (step env fuel x.1 (.loadOwned key)).1 = x.1 ∨ LoadOwnedOK env fuel x.1 x.2 key
+  | op, x => StepOKC env fuel op x
+
+theorem StepOKC.toO {env : Env} {fuel : Nat} {op : HOp} {x : St × RSt} (h : StepOKC env fuel op x) :
+    StepOKO env fuel op x := by
+  cases op with
+  | api o =>
+    cases o with
+    | loadOwned key => exact h.imp id (fun h' => h'.elim)
+    | load key => exact h
+    | getCached key => exact h
+    | getOrInsert key v => exact h
+    | contains key => exact h
+    | remove key => exact h
+    | take key => exact h
+    | clear => exact h
+  | notify evs => exact h
+  | hotReload => exact h
+  | enhance => exact h
+
+theorem StepOKO.loadOwned {env : Env} {fuel : Nat} {x : St × RSt} {key : Key} (h : LoadOwnedOK env fuel x.1 x.2 key) :
+    StepOKO env fuel (.api (.loadOwned key)) x := Or.inr h
+
+theorem SInvC.stepO {env : Env} (hS : env.Steady) {fuel : Nat} {x : St × RSt} (h : SInvC env fuel x)
+    (op : HOp) (hok : StepOKO env fuel op x) : SInvC env fuel (hstep fuel (env, op) x) := by
+  cases op with
+  | api o =>
+    cases o with
+    | loadOwned key =>
+      obtain ⟨s, r⟩ := x
+      have hp : PendingC env fuel (Model.step env fuel s (.loadOwned key)).1 r.graph := by
+        rcases hok with e | hok
+        · rw [show (Model.step env fuel s (.loadOwned key)).1 = s from e]; exact h.pending
+        · exact loadOwned_pendingC hS key h.pending hok
+      exact ⟨hp, h.live, h.inv, h.idle⟩
+    | load key => exact h.step hS _ hok
+    | getCached key => exact h.step hS _ hok
+    | getOrInsert key v => exact h.step hS _ hok
+    | contains key => exact h.step hS _ hok
+    | remove key => exact h.step hS _ hok
+    | take key => exact h.step hS _ hok
+    | clear => exact h.step hS _ hok
+  | notify evs => exact h.step hS _ hok
+  | hotReload => exact h.step hS _ hok
+  | enhance => exact h.step hS _ hok
+
+theorem StepOKO.pass {env : Env} {fuel : Nat} {op : HOp} {x : St × RSt} (hop : op.isReloader = true)
+    (h : StepOKO env fuel op x) :
+    op.runsPass x.2 = true → (prePass op x).2.toReload ≠ [] → PassOK env fuel (prePass op x) := by
+  cases op with
+  | api o => cases hop
+  | notify evs => exact h
+  | hotReload => exact h
+  | enhance => exact h
+
+/-- **Histories with `clear` and `load_owned`** -/
+theorem histO_settled {env : Env} (hS : env.Steady) {fuel : Nat} {h : List (Env × HOp)} {x : St × RSt}
+    (hh : HistP (StepOKO env fuel) env fuel h x) (hx : SInvC env fuel x) :
+    SInvC env fuel (runH fuel h x) ∧
+    ∀ h1 op h2, h = h1 ++ (env, op) :: h2 → op.isReloader = true →
+      Settled env fuel (runH fuel (h1 ++ [(env, op)]) x).1 (runH fuel (h1 ++ [(env, op)]) x).2.graph ∧
+      (runH fuel (h1 ++ [(env, op)]) x).1.out = [] ∧ SInvC env fuel (runH fuel (h1 ++ [(env, op)]) x) ∧
+      SInvC env fuel (runH fuel h1 x) :=
+  histP_settled hS (fun _ op hx hok => hx.stepO hS op hok) (fun _ _ hop hok => hok.pass hop) hh hx
 
 /-! ## Executable checks of the weakened hypotheses (for concrete instances) -/
 
@@ -654,5 +910,54 @@ theorem noDependentOnC_of_check {s : St} {g : Graph} {key : Key} (h : noDependen
     have := h2 _ hm
     simp only [hc, hd, Bool.not_true, Bool.false_or, hk, decide_false, hmem, decide_true] at this
     cases this
+
+/-- `OwnedAgrees`, as a check -/
+def ownedAgreesB (env : Env) (fuel : Nat) (s : St) (key : Key) : Bool :=
+  match s.lookup key with
+  | some c =>
+    !c.dyn ||
+      (match (ownedBody env fuel s key).2 with
+       | .ok v => decide (v = c.val)
+       | _ => true)
+  | none => true
+
+theorem ownedAgrees_of_check {env : Env} {fuel : Nat} {s : St} {key : Key} (h : ownedAgreesB env fuel s key = true) :
+    OwnedAgrees env fuel s key := by
+  intro c v hc hd hv
+  unfold ownedAgreesB at h
+  rw [hc, hv] at h
+  simpa [hd] using h
+
+theorem ownedAgrees_check_of {env : Env} {fuel : Nat} {s : St} {key : Key} (h : OwnedAgrees env fuel s key) :
+    ownedAgreesB env fuel s key = true := by
+  unfold ownedAgreesB
+  cases hc : s.lookup key with
+  | none => rfl
+  | some c =>
+    simp only []
+    cases hd : c.dyn with
+    | false => rfl
+    | true =>
+      simp only [Bool.not_true, Bool.false_or]
+      cases hv : (ownedBody env fuel s key).2 with
+      | ok v => simp only [decide_eq_true_eq]; exact h c v hc hd hv
+      | err e => rfl
+      | panicked => rfl
+      | diverged => rfl
+
+/-- `LoadOwnedOK`, as a check -/
+def loadOwnedOKB (env : Env) (fuel : Nat) (s : St) (r : RSt) (key : Key) : Bool :=
+  recordsAsset (env.types key.ty).hot env.hasReloader &&
+  cleanRun env (step env fuel s (.loadOwned key)).1 (fuel - 1) s.fresh ((env.types key.ty).prog key.id) &&
+  ownedAgreesB env fuel s key &&
+  noProbedKeyFilledB s (step env fuel s (.loadOwned key)).1 r.graph &&
+  noLivePendingKeyFilledB s (step env fuel s (.loadOwned key)).1
+
+theorem loadOwnedOK_of_check {env : Env} {fuel : Nat} {s : St} {r : RSt} {key : Key}
+    (h : loadOwnedOKB env fuel s r key = true) : LoadOwnedOK env fuel s r key := by
+  unfold loadOwnedOKB at h
+  simp only [Bool.and_eq_true] at h
+  exact ⟨⟨h.1.1.1.1, h.1.1.1.2⟩, ownedAgrees_of_check h.1.1.2, noProbedKeyFilled_of_check h.1.2,
+    noLivePendingKeyFilled_of_check h.2⟩
 
 end AmVerif.Model
